@@ -135,18 +135,18 @@ PROPERTIES = {
              quick=dict(shards=16, min_eval=5000000), thorough=dict(shards=16, min_eval=50000000, timeout=5400)),
            U('c15_pbt', 'c15_iso_parse.cpp', flavour='asan', needs_lib=False, args=['--no-sweeps'],
              quick=dict(cases=25000, shards=16, min_eval=100000), thorough=dict(cases=800000, shards=16, min_eval=1000000)),
-           U('c14_kf', 'c14_chrono_text.cpp', flavour='opt', args=['--no-sweeps', '--prop', 'kf27*'],
+           U('c14_kf', 'c14_chrono_text.cpp', flavour='opt', libs=['-lpugixml'], args=['--no-sweeps', '--prop', 'kf27*'],
              quick=dict(cases=800, shards=1, min_eval=100), thorough=dict(cases=8000, shards=1, min_eval=100))]),
 
  'C14': dict(
     level='exploration', exhaustive_claim=True,
     rule='exhaustive: every day of years -10000..+20000 for 7 precisions (+ 32-bit representations), every second of 12 selected days; generated min/max neighbourhoods, calendar boundaries and random 64-bit counts for time points and durations, CRawTime/CTimeRef, MsgPack timestamp passage; oracle = ref_calendar (Rata-Die in __int128, self-tested against glibc gmtime_r)',
     assumptions=TRUSTED + ['ref_calendar.h; glibc gmtime_r for its self-test', 'recorded findings KF-27 (first day of a 64-bit range cannot be parsed back) and KF-33 (coarse 64-bit time points beyond +-292 billion years) are excluded by construction and witnessed separately'],
-    units=[U('c14_sweep', 'c14_chrono_text.cpp', flavour='opt', args=['--only-sweeps'],
+    units=[U('c14_sweep', 'c14_chrono_text.cpp', flavour='opt', libs=['-lpugixml'], args=['--only-sweeps'],
              quick=dict(shards=16, min_eval=30000000), thorough=dict(shards=16, min_eval=30000000)),
-           U('c14_pbt', 'c14_chrono_text.cpp', flavour='asan', args=['--no-sweeps', '--skip-prefix', 'kf'],
+           U('c14_pbt', 'c14_chrono_text.cpp', flavour='asan', libs=['-lpugixml'], args=['--no-sweeps', '--skip-prefix', 'kf'],
              quick=dict(cases=40000, shards=8, min_eval=100000), thorough=dict(cases=1500000, shards=16, min_eval=1000000)),
-           U('c14_kf', 'c14_chrono_text.cpp', flavour='opt', args=['--no-sweeps', '--prop', 'kf*'],
+           U('c14_kf', 'c14_chrono_text.cpp', flavour='opt', libs=['-lpugixml'], args=['--no-sweeps', '--prop', 'kf*'],
              quick=dict(cases=1200, shards=1, min_eval=100), thorough=dict(cases=12000, shards=1, min_eval=100))]),
 
  'C16': dict(
